@@ -14,6 +14,7 @@ import tempfile
 V = os.path.dirname(os.path.dirname(os.path.abspath(__file__)))
 wt, pid = sys.argv[1], sys.argv[2]
 suite = '--no-suite' not in sys.argv
+tag = sys.argv[sys.argv.index('--tag') + 1] if '--tag' in sys.argv else ''
 
 
 def run(cmd, **kw):
@@ -28,7 +29,7 @@ for k in sorted(os.listdir(os.path.join(wt, 'SEED'))):
     sd = os.path.join(wt, 'SEED', k)
     if not os.path.exists(os.path.join(sd, 'patch.diff')):
         continue
-    name = f'{pid}-{k}'
+    name = f'{pid}-{tag}{k}'
     d = tempfile.mkdtemp(prefix=f'verif-seed-{name}-')
     rec = {}
     try:
